@@ -278,6 +278,22 @@ fn udp_grid(cx: &mut Cx, rng: &mut Rng) {
                 let got = matches!(guarded(|| client.decode(&mut b)), Ok(Some(_)));
                 cx.decide("ss2022-udp-response-type", m.name(), json!({"type": t, "users": n_users}), t == 1, got);
             }
+            // a response is bound to the client's own request by the client session id it names: the session's own id is
+            // accepted, every single-bit neighbour, another session's id and zero are not (a datagram the server sealed for
+            // ANOTHER session of the same key - another binding of this client, another device of the same user - must not
+            // come out here, wherever it was re-sent to)
+            let mut others: Vec<(String, u64)> = (0..64).map(|b| (format!("bit-{b}-flipped"), csid ^ (1u64 << b))).collect();
+            others.push(("another-session".into(), rng.next_u64()));
+            others.push(("zero".into(), 0));
+            others.push(("own".into(), csid));
+            for (label, id) in others {
+                pid += 1;
+                let p = ss::S22UdpPacket { session_id: 78, packet_id: pid, type_byte: 1, timestamp: NOW, client_session_id: Some(id), padding: vec![], addr: target.clone(), payload: b"a".to_vec() };
+                let w = ss::s22_udp_server_encode(m, &keys.psk, &p, &rng.arr());
+                let mut b = BytesMut::from(&w[..]);
+                let got = matches!(guarded(|| client.decode(&mut b)), Ok(Some(_)));
+                cx.decide("ss2022-udp-response-client-session-id", m.name(), json!({"client_session_id": label, "users": n_users}), id == csid, got);
+            }
         }
     }
 }
